@@ -2,7 +2,10 @@ package host
 
 import (
 	"bytes"
+	"errors"
 	"fmt"
+	"io"
+	"strings"
 	"sync/atomic"
 	"testing"
 	"time"
@@ -50,6 +53,43 @@ func c11Check(exp, got []byte, s *spec.C11Stream, other byte) {
 	}
 }
 
+// flakyWriter refuses (mode "err") or half-accepts (mode "short") every third Write call.
+type flakyWriter struct {
+	lockedBuf
+	mode     string
+	calls    int
+	offered  atomic.Int64
+	refusals atomic.Int32
+}
+
+func (f *flakyWriter) Write(p []byte) (int, error) {
+	f.offered.Add(int64(len(p)))
+	f.mu.Lock()
+	f.calls++
+	refuse := f.calls%3 == 0 && len(p) > 0
+	f.mu.Unlock()
+	if !refuse {
+		return f.lockedBuf.Write(p)
+	}
+	f.refusals.Add(1)
+	if f.mode == "short" {
+		k := len(p) / 2
+		f.lockedBuf.Write(p[:k])
+		return k, io.ErrShortWrite
+	}
+	return 0, errors.New("sync writer: temporarily unavailable")
+}
+
+func isSubseq(sub, full []byte) bool {
+	j := 0
+	for i := 0; i < len(full) && j < len(sub); i++ {
+		if full[i] == sub[j] {
+			j++
+		}
+	}
+	return j == len(sub)
+}
+
 func toPlan(p spec.C11Plan) map[string]any {
 	var fs []map[string]any
 	for _, f := range p.Frames {
@@ -72,6 +112,38 @@ func TestC11(t *testing.T) {
 		cfg := baseClientConfig()
 		cfg.GRPCBrokerMultiplex = mux
 		cfg.SyncStdout, cfg.SyncStderr = &out, &errb
+		var flaky *flakyWriter
+		fmode, fstream, _ := strings.Cut(p.FlakyWriter, ":")
+		if p.FlakyWriter != "" {
+			flaky = &flakyWriter{mode: fmode}
+			if fstream == "o" {
+				cfg.SyncStdout = flaky
+			} else {
+				cfg.SyncStderr = flaky
+			}
+		}
+		// what each stream's writer took so far, and how much was handed to it
+		outBytes := func() []byte {
+			if flaky != nil && fstream == "o" {
+				return flaky.Bytes()
+			}
+			return out.Bytes()
+		}
+		errBytes := func() []byte {
+			if flaky != nil && fstream == "e" {
+				return flaky.Bytes()
+			}
+			return errb.Bytes()
+		}
+		handed := func(s string) int64 {
+			if flaky != nil && fstream == s {
+				return flaky.offered.Load()
+			}
+			if s == "o" {
+				return int64(len(out.Bytes()))
+			}
+			return int64(len(errb.Bytes()))
+		}
 		hostSetFor(cfg, wire)
 		pcfg := pluginCfgFor(wire)
 		env := []string{}
@@ -123,8 +195,14 @@ func TestC11(t *testing.T) {
 			defer close(snapDone)
 			for !stop.Load() {
 				var so, se spec.C11Stream
-				c11Check(expO, out.Bytes(), &so, 'E')
-				c11Check(expE, errb.Bytes(), &se, 'O')
+				c11Check(expO, outBytes(), &so, 'E')
+				c11Check(expE, errBytes(), &se, 'O')
+				if flaky != nil && fstream == "o" {
+					so.IsPrefix = true
+				}
+				if flaky != nil && fstream == "e" {
+					se.IsPrefix = true
+				}
 				if !so.IsPrefix || !se.IsPrefix {
 					prefixOK.Store(false)
 				}
@@ -144,7 +222,7 @@ func TestC11(t *testing.T) {
 		// the plugin acknowledged its last write: wait (bounded) for delivery
 		t0 := time.Now()
 		for time.Since(t0) < 15*time.Second {
-			if int64(len(out.Bytes())) >= int64(len(expO)) && int64(len(errb.Bytes())) >= int64(len(expE)) {
+			if handed("o") >= int64(len(expO)) && handed("e") >= int64(len(expE)) {
 				break
 			}
 			time.Sleep(10 * time.Millisecond)
@@ -158,9 +236,17 @@ func TestC11(t *testing.T) {
 		<-snapDone
 		<-trafficDone
 		w0, w1 := o.Out.Written, o.Err.Written
-		c11Check(expO, out.Bytes(), &o.Out, 'E')
-		c11Check(expE, errb.Bytes(), &o.Err, 'O')
+		c11Check(expO, outBytes(), &o.Out, 'E')
+		c11Check(expE, errBytes(), &o.Err, 'O')
 		o.Out.Written, o.Err.Written = w0, w1
+		if flaky != nil {
+			fs, exp := &o.Out, expO
+			if fstream == "e" {
+				fs, exp = &o.Err, expE
+			}
+			fs.Flaky, fs.Offered, fs.Refusals = true, flaky.offered.Load(), int(flaky.refusals.Load())
+			fs.NotSubseq = !isSubseq(flaky.Bytes(), exp)
+		}
 		if !prefixOK.Load() {
 			o.Out.IsPrefix = o.Out.IsPrefix && false
 		}
